@@ -536,3 +536,76 @@ def c08_series_cases(draw):
         varied.append([names[i], [_decade_code(draw, [0, 1, 2, 3, 4, 5]) for _ in range(nv)]])
     body.update({"api": api, "chain": chain, "varied": varied})
     return body
+
+
+# ---------------------------------------------------------------------------------------------------------------
+# C08: optional arguments of EqSystem.root - the explicit guess x0 and the formulation / solver options
+# ---------------------------------------------------------------------------------------------------------------
+X0_KINDS = ["scaled", "random", "other_solution", "own_solution"]
+X0_SCALES = [-1000, -700, -500, -301, -100, 100, 301, 500, 700, 900]      # log10 factor in 1/1000 decade (+ 0..100)
+ROOT_CHAINS = ["lin", "default", "loglin"]      # (NumSysLin,) first: the only chain whose start depends on x0
+NEQSYS_TYPES = ["chained_conditional", "conditional_chained", "static_conditions"]
+ROOT_TOLS = [None, -10000, -12000]              # log10 tol in 1/1000 decade; None = pyneqsys default 1e-8
+
+
+def _x0_spec(draw, body, kinds):
+    kind = draw(st.sampled_from(kinds))
+    spec = {"kind": kind}
+    if kind == "scaled":
+        spec["scale"] = draw(st.sampled_from(X0_SCALES)) + draw(st.integers(0, 100))
+    elif kind in ("random", "other_solution"):
+        # random: the guess itself; other_solution: a second initial state whose default-chain solution is the guess
+        spec["codes"] = {s: _decade_code(draw, [0, 1, 2, 3, 4, 5]) for s in ORDER if s in body["lc0"]}
+    return spec
+
+
+class ModelRootArgs(Model08):
+    def __init__(self, case):
+        Model08.__init__(self, case)
+        self.x0 = case.get("x0")
+        o = dict(case.get("opts") or {})
+        self.opts = {}
+        if o.get("rref_equil"):
+            self.opts["rref_equil"] = True
+        if o.get("rref_preserv"):
+            self.opts["rref_preserv"] = True
+        if o.get("neqsys_type", NEQSYS_TYPES[0]) != NEQSYS_TYPES[0]:
+            self.opts["neqsys_type"] = o["neqsys_type"]
+        if o.get("tol") is not None:
+            self.opts["tol"] = 10.0 ** (o["tol"] / 1000.0)
+        if o.get("method"):
+            self.opts["method"] = o["method"]
+
+    def guess_state(self):
+        """{name: value} described by the x0 spec ('scaled', 'random') or the second initial state ('other_solution')."""
+        k = self.x0["kind"]
+        if k == "scaled":
+            f = 10.0 ** (self.x0["scale"] / 1000.0)
+            return {s: v * f for s, v in self.c0.items()}
+        if k in ("random", "other_solution"):
+            return {s: (WATER_CONC if s == "H2O" else 10.0 ** (self.x0["codes"][s] / 1000.0)) for s in self.species}
+        return dict(self.c0)
+
+
+@st.composite
+def c08_x0_cases(draw):
+    chain = draw(st.sampled_from(ROOT_CHAINS))
+    body = _c08_body(draw, max_eq=3)
+    body["chain"] = chain
+    body["x0"] = _x0_spec(draw, body, X0_KINDS)
+    return body
+
+
+@st.composite
+def c08_option_cases(draw):
+    chain = draw(st.sampled_from(["default", "loglin", "lin"]))
+    opts = {"rref_equil": draw(st.sampled_from([False, True])), "rref_preserv": draw(st.sampled_from([False, True])),
+            "neqsys_type": draw(st.sampled_from(NEQSYS_TYPES)), "tol": draw(st.sampled_from(ROOT_TOLS)),
+            "method": draw(st.sampled_from([None, "lm"]))}
+    with_x0 = draw(st.sampled_from([False, False, True]))
+    body = _c08_body(draw)
+    body["chain"] = chain
+    body["opts"] = opts
+    if with_x0:
+        body["x0"] = _x0_spec(draw, body, ["scaled", "random"])
+    return body
